@@ -7,6 +7,7 @@ from .. import storefault as sf
 from .. import tracefmt as tf
 from ..framework import result, ihash, emu_verdict
 from ..prng import Rng
+from ..world import BASE_CLOCK as W_BASE
 
 ID = "C12"
 LEVEL = "fault_enumeration"
@@ -79,7 +80,33 @@ def run(case, ctx):
                            % (si, cut, j, m2.end_verdict()[1]), si, s.obs_bytes()[:cut], None)
 
         import itertools
-        for (kind, desc, si, nobs, njson) in itertools.chain(sf.single_corruptions(streams, models, Rng(1), case.get("stride", 1)),
+        flags_of = {}
+
+        def breakdown_corruptions():
+            """With -b the nOS-V breakdown needs nosv.can_breakdown in every stream: the attribute, or the whole object, gone
+            or false must be refused (only when the base trace is accepted under -b in the first place)."""
+            if "nosv" not in models:
+                return
+            st, _, se_ = ctx.run_tool("ovniemu", ["-b", tdir])
+            if emu_verdict(st, se_) != "accept":
+                return
+            for si, s in enumerate(streams):
+                for what, mut in (("nosv object removed", lambda m_: m_.pop("nosv", None)),
+                                  ("nosv.can_breakdown removed", lambda m_: m_.get("nosv", {}).pop("can_breakdown", None)),
+                                  ("nosv.can_breakdown = false", lambda m_: m_.get("nosv", {}).__setitem__("can_breakdown", False))):
+                    m2 = copy.deepcopy(s.meta)
+                    mut(m2)
+                    if m2 == s.meta:
+                        continue
+                    d_ = "stream %d: %s [ovniemu -b]" % (si, what)
+                    flags_of[d_] = ["-b"]
+                    yield ("meta:breakdown", d_, si, None, json.dumps(m2).encode())
+
+        NEG_TABLE = ("rank hostname offset_median offset_mean offset_std\n" +
+                     "".join("%d %s %d %d.0 1.0\n" % (k, h, -3 * W_BASE, -3 * W_BASE)
+                             for k, h in enumerate(sorted({l.hostname for l in w.looms})))).encode()
+        nswap = [0]
+        for (kind, desc, si, nobs, njson) in itertools.chain(breakdown_corruptions(), sf.single_corruptions(streams, models, Rng(1), case.get("stride", 1)),
                                                              boundary_truncations()):
             changed = []
             if isinstance(si, list):
@@ -98,12 +125,24 @@ def run(case, ctx):
                     p = os.path.join(tdir, streams[si].relpath, "stream.json")
                     changed.append((p, streams[si].json_bytes()))
                     open(p, "wb").write(njson)
-            status, so, se = ctx.run_tool("ovniemu", [tdir])
+            status, so, se = ctx.run_tool("ovniemu", flags_of.get(desc, []) + [tdir])
             info["evals"] += 1
             info["faults"][kind] = info["faults"].get(kind, 0) + 1
+            if kind == "swap" and not (status == 0 or b"emulation finished ok" in se):
+                nswap[0] += 1
+                if nswap[0] % 4 == 0:
+                    # the same backwards clock under an offset table that moves the whole host before time zero
+                    tp = os.path.join(tdir, "clock-offsets.txt")
+                    open(tp, "wb").write(NEG_TABLE)
+                    status, so, se = ctx.run_tool("ovniemu", [tdir])
+                    os.unlink(tp)
+                    info["evals"] += 1
+                    info["faults"]["swap:under-negative-offsets"] = info["faults"].get("swap:under-negative-offsets", 0) + 1
+                    if status == 0 or b"emulation finished ok" in se:
+                        desc += " [with an offset table of -3e13 ns for every host]"
             hashes.append(ihash([info["ihash"], desc]))
             okline = b"emulation finished ok" in se
-            if not (status == 0 or okline) and kind.startswith(("meta:", "header")) and kind != "meta:require-removed":
+            if not (status == 0 or okline) and kind.startswith(("meta:", "header")) and kind not in ("meta:require-removed", "meta:breakdown"):
                 # the same stored state with every model forced on (-a): forcing models on excuses a model
                 # nobody required, nothing else
                 status, so, se = ctx.run_tool("ovniemu", ["-a", tdir])
